@@ -189,15 +189,40 @@ def list_properties(u, binary):
 
 def run_cbmc(u, binary, prop_ids=None, timeout=300, route=None):
     cmd = cbmc_base(u, route) + ['--json-ui', '--trace']
+    if u.get('no_trace', u['module'].get('no_trace', False)):
+        cmd = cbmc_base(u, route) + ['--trace']     # marker only: the plain-text path below drops it
     for p in (prop_ids or []):
         cmd += ['--property', p]
     cmd += [binary]
-    rc, out, err, dt, to = sh(cmd, timeout=timeout, mem_kb=u.get('mem_kb', DEFAULT_MEM_KB))
-    if to:
-        return None, 'timeout after %ds' % timeout, dt
-    results, msgs = parse_cbmc_json(out)
+    if '--json-ui' in cmd:
+        rc, out, err, dt, to = sh(cmd, timeout=timeout, mem_kb=u.get('mem_kb', DEFAULT_MEM_KB))
+        if to:
+            return None, 'timeout after %ds' % timeout, dt
+        results, msgs = parse_cbmc_json(out)
+    else:
+        rc, out, err, dt, results, msgs = 0, '', '', 0.0, None, ''
+    if results is None and '--trace' in cmd:
+        # cbmc 6.11 can abort while building a json trace: take the statuses from a plain-text run without trace
+        cmd2 = [c for c in cmd if c not in ('--trace', '--json-ui')]
+        rc, out, err, dt2, to = sh(cmd2, timeout=timeout, mem_kb=u.get('mem_kb', DEFAULT_MEM_KB))
+        dt += dt2
+        if to:
+            return None, 'timeout after %ds' % timeout, dt
+        res = []
+        curfile = ''; curfn = ''
+        for ln in out.split('\n'):
+            m0 = re.match(r'^(\S+) function (\S+)$', ln)
+            if m0:
+                curfile, curfn = m0.group(1), m0.group(2)
+                continue
+            m1 = re.match(r'^\[(\S+)\] (?:line (\d+) )?(.*): (SUCCESS|FAILURE|UNKNOWN|ERROR)$', ln)
+            if m1:
+                res.append(dict(property=m1.group(1), description=m1.group(3), status=m1.group(4),
+                                sourceLocation=dict(file=curfile, function=curfn, line=m1.group(2))))
+        if res and ('VERIFICATION' in out):
+            results, msgs = res, out[-3000:]
     if results is None:
-        return None, 'no result (rc=%d): %s %s' % (rc, msgs[-1500:], err[-500:]), dt
+        return None, 'no result (rc=%d): %s %s' % (rc, msgs[-600:], err[-300:]), dt
     return results, msgs, dt
 
 def ensures_labels(spec_text):
@@ -253,6 +278,8 @@ def run_unit(u, keep=False, jobs=4):
                     break
                 upd = {x.get('property'): x for x in r2 if x.get('property') in unk}
                 results = [upd.get(x.get('property'), x) for x in results]
+        if results is None and not (u.get('split', False) or u.get('split_fallback', False)):
+            raise Undecided('monolithic run of %s: %s' % (u['name'], msgs[:300]))
         if results is None:
             # per-obligation mode
             props = list_properties(u, b['binary'])
